@@ -4,7 +4,10 @@ MCSystems == {"s1", "s2", "s3"}
 MCCompXC == <<"x", "c">>
 MCCompX == <<"x">>
 MCCompCX == <<"c", "x">>
-\* r1: exchange reaction of s1; r2: exchange reaction of s1,s2; r3: XC reaction of s2,s3; r4: XC of s1
+\* r1: exchange reaction of s1; r2: exchange reaction of s1,s2; r3: XC reaction of s2,s3; r4: XC of s1;
+\* r5: XC reaction that lists a system TWICE (a dimer binding written A2 - A - A): for the state machine only the set of
+\* systems matters, the harness's label / covariance oracle sums the stoichiometric counts entry by entry
 MCRxns == [r1 |-> [mode |-> 0, structs |-> {"s1"}], r2 |-> [mode |-> 0, structs |-> {"s1", "s2"}],
-           r3 |-> [mode |-> 2, structs |-> {"s2", "s3"}], r4 |-> [mode |-> 2, structs |-> {"s1"}]]
+           r3 |-> [mode |-> 2, structs |-> {"s2", "s3"}], r4 |-> [mode |-> 2, structs |-> {"s1"}],
+           r5 |-> [mode |-> 2, structs |-> {"s1", "s2"}]]
 ====
